@@ -38,13 +38,15 @@ fn build_direct(n: usize, es: &[E]) -> Graph {
 
 /// through the public loader (CSV files -> Graph::from_files)
 /// `dists`: the distance column of the edge list (1.0 everywhere when None)
-fn build_files(n: usize, es: &[E], dir: &std::path::Path, id: usize, dists: Option<&[f64]>) -> Result<Graph, String> {
+/// `hint`: the n_edges size hint handed to Graph::from_files (Some(None) = no hint; None = the exact row count).
+/// `first_id`: id of the first edge row (0 = as the loader expects).
+fn build_files_h(n: usize, es: &[E], dir: &std::path::Path, id: usize, dists: Option<&[f64]>, hint: Option<Option<usize>>, first_id: usize) -> Result<Graph, String> {
     let ep = dir.join(format!("c18_edges_{}.csv", id));
     let vp = dir.join(format!("c18_vertices_{}.csv", id));
     let mut s = String::from("edge_id,src_vertex_id,dst_vertex_id,distance\n");
     for (i, (a, b)) in es.iter().enumerate() {
         let d = dists.map(|d| d[i]).unwrap_or(1.0);
-        s.push_str(&format!("{},{},{},{:?}\n", i, a, b, d));
+        s.push_str(&format!("{},{},{},{:?}\n", i + first_id, a, b, d));
     }
     std::fs::write(&ep, s).map_err(|e| e.to_string())?;
     let mut s = String::from("vertex_id,x,y\n");
@@ -52,7 +54,11 @@ fn build_files(n: usize, es: &[E], dir: &std::path::Path, id: usize, dists: Opti
         s.push_str(&format!("{},{}.0,0.0\n", i, i));
     }
     std::fs::write(&vp, s).map_err(|e| e.to_string())?;
-    let g = Graph::from_files(&ep, &vp, Some(es.len()), Some(n), Some(false)).map_err(|e| e.to_string());
+    let n_edges_hint = match hint {
+        None => Some(es.len()),
+        Some(h) => h,
+    };
+    let g = Graph::from_files(&ep, &vp, n_edges_hint, Some(n), Some(false)).map_err(|e| e.to_string());
     let _ = std::fs::remove_file(&ep);
     let _ = std::fs::remove_file(&vp);
     g
@@ -89,21 +95,28 @@ struct Spec {
     deep: Option<(String, usize)>,
     /// family `loaded`: distance column of the edge list file (zero-length edges included)
     dists: Option<Vec<f64>>,
+    /// family `loaded`: explicit n_edges hint for Graph::from_files (Some(None) = no hint)
+    hint: Option<Option<usize>>,
+    /// family `sequence`
+    steps: Option<Vec<Step>>,
 }
 struct Gen {
     specs: Vec<Spec>,
 }
 fn add_case(g: &mut Gen, n: usize, es: Vec<E>, family: &str, via_files: bool, _tmp: &std::path::Path) {
-    g.specs.push(Spec { n, es, family: family.to_string(), via_files, deep: None, dists: None });
+    g.specs.push(Spec { n, es, family: family.to_string(), via_files, deep: None, dists: None, hint: None, steps: None });
 }
 fn add_deep(g: &mut Gen, shape: &str, n: usize, k: usize) {
-    g.specs.push(Spec { n, es: vec![], family: "deep".to_string(), via_files: false, deep: Some((shape.to_string(), k)), dists: None });
+    g.specs.push(Spec { n, es: vec![], family: "deep".to_string(), via_files: false, deep: Some((shape.to_string(), k)), dists: None, hint: None, steps: None });
 }
 /// family `loaded`: the edge list is written to edges.csv / vertices.csv with the given distances
 /// and read back through Graph::from_files; S still judges against the EDGE LIST of the file
-fn add_loaded(g: &mut Gen, n: usize, es: Vec<E>, dists: Vec<f64>, family: &str) {
+fn add_loaded(g: &mut Gen, n: usize, es: Vec<E>, dists: Vec<f64>, family: &str, hint: Option<Option<usize>>) {
     assert_eq!(es.len(), dists.len());
-    g.specs.push(Spec { n, es, family: family.to_string(), via_files: true, deep: None, dists: Some(dists) });
+    g.specs.push(Spec { n, es, family: family.to_string(), via_files: true, deep: None, dists: Some(dists), hint, steps: None });
+}
+fn add_seq(g: &mut Gen, steps: Vec<Step>) {
+    g.specs.push(Spec { n: 0, es: vec![], family: "sequence".to_string(), via_files: false, deep: None, dists: None, hint: None, steps: Some(steps) });
 }
 fn deal(g: Gen, st: &mut Stream, shards: usize, tmp: &std::path::Path) {
     let total = g.specs.len();
@@ -123,11 +136,15 @@ fn deal(g: Gen, st: &mut Stream, shards: usize, tmp: &std::path::Path) {
             emit_deep(st, shape, sp.n, *k);
             continue;
         }
-        emit_case(st, sp.n, sp.es, &sp.family, sp.via_files, tmp, sp.dists);
+        if let Some(steps) = sp.steps {
+            emit_seq(st, steps, tmp);
+            continue;
+        }
+        emit_case(st, sp.n, sp.es, &sp.family, sp.via_files, tmp, sp.dists, sp.hint);
     }
 }
 
-fn emit_case(st: &mut Stream, n: usize, es: Vec<E>, family: &str, via_files: bool, tmp: &std::path::Path, dists: Option<Vec<f64>>) {
+fn emit_case(st: &mut Stream, n: usize, es: Vec<E>, family: &str, via_files: bool, tmp: &std::path::Path, dists: Option<Vec<f64>>, hint: Option<Option<usize>>) {
     let id = st.next_id();
     let g_coq = format!("(mkG {} {})", n, coq_list(&es, |(s, d)| format!("({},{})", s, d)));
     let wf = es.iter().all(|(s, d)| *s < n && *d < n);
@@ -135,7 +152,7 @@ fn emit_case(st: &mut Stream, n: usize, es: Vec<E>, family: &str, via_files: boo
     let dists2 = dists.clone();
     let tmp2 = tmp.to_path_buf();
     let out = catch(move || -> Result<(Vec<Vec<usize>>, Vec<usize>), String> {
-        let g = if via_files { build_files(n, &es2, &tmp2, id, dists2.as_deref()).map_err(|e| format!("LOADERR {}", e))? } else { build_direct(n, &es2) };
+        let g = if via_files { build_files_h(n, &es2, &tmp2, id, dists2.as_deref(), hint, 0).map_err(|e| format!("LOADERR {}", e))? } else { build_direct(n, &es2) };
         let comps = all_strongly_connected_componenets(&g).map_err(|e| format!("{:?}", e))?;
         let largest = largest_strongly_connected_component(&g).map_err(|e| format!("{:?}", e))?;
         Ok((comps.iter().map(|c| c.iter().map(|v| v.0).collect()).collect(), largest.iter().map(|v| v.0).collect()))
@@ -219,6 +236,18 @@ fn emit_case(st: &mut Stream, n: usize, es: Vec<E>, family: &str, via_files: boo
     let mut desc = json!({"id": id, "family": family, "n": n, "edges": es, "via_files": via_files});
     if let Some(d) = &dists {
         desc["dists"] = json!(d);
+    }
+    if let Some(h) = &hint {
+        // explicit n_edges hint: the unchanged loader uses it only to size its progress bar
+        desc["n_edges_hint"] = json!(h);
+        let m = es.len();
+        st.count(match h {
+            None => "n_edges_hint:none",
+            Some(x) if *x == m => "n_edges_hint:exact",
+            Some(x) if *x > m => "n_edges_hint:larger",
+            Some(0) => "n_edges_hint:zero",
+            Some(_) => "n_edges_hint:smaller",
+        });
     }
     st.case(terms, vec![line], desc);
 }
@@ -393,6 +422,108 @@ fn random_graph(r: &mut Rng, maxn: usize) -> (usize, Vec<E>, &'static str) {
         }
     }
     (n, es, fam)
+}
+
+/// one analysis of a SEQUENCE case
+#[derive(Clone)]
+struct Step {
+    n: usize,
+    es: Vec<E>,
+    /// "direct": a valid Graph value; "bad_adj": the same plus an adjacency entry of vertex `bad_at`
+    /// naming an edge id that the edge table does not have; "file_ids_from_1": edges.csv whose ids
+    /// are numbered from 1 (loads, then the last id is missing from the edge table)
+    kind: String,
+    bad_at: usize,
+}
+fn step_json(s: &Step) -> serde_json::Value {
+    json!({"n": s.n, "edges": s.es, "kind": s.kind, "bad_at": s.bad_at})
+}
+
+/// SEQUENCE case: all steps run one after the other on ONE fresh thread; each step calls
+/// all_strongly_connected_componenets and then largest_strongly_connected_component
+fn emit_seq(st: &mut Stream, steps: Vec<Step>, tmp: &std::path::Path) {
+    let id = st.next_id();
+    let steps2 = steps.clone();
+    let tmp2 = tmp.to_path_buf();
+    type R = Result<Result<(Vec<Vec<usize>>, Vec<usize>), String>, String>;
+    let results: Vec<R> = std::thread::spawn(move || {
+        steps2
+            .iter()
+            .enumerate()
+            .map(|(j, sp)| {
+                let sp = sp.clone();
+                let tmp3 = tmp2.clone();
+                catch(move || -> Result<(Vec<Vec<usize>>, Vec<usize>), String> {
+                    let g = match sp.kind.as_str() {
+                        "file_ids_from_1" => build_files_h(sp.n, &sp.es, &tmp3, id * 16 + j, None, None, 1).map_err(|e| format!("LOADERR {}", e))?,
+                        "bad_adj" => {
+                            let mut g = build_direct(sp.n, &sp.es);
+                            let missing = routee_compass_core::model::network::EdgeId(sp.es.len() + 7);
+                            g.adj[sp.bad_at].insert(missing, routee_compass_core::model::network::VertexId(0));
+                            g.rev[sp.bad_at].insert(missing, routee_compass_core::model::network::VertexId(0));
+                            g
+                        }
+                        _ => build_direct(sp.n, &sp.es),
+                    };
+                    let comps = all_strongly_connected_componenets(&g).map_err(|e| format!("{:?}", e))?;
+                    let largest = largest_strongly_connected_component(&g).map_err(|e| format!("{:?}", e))?;
+                    Ok((comps.iter().map(|c| c.iter().map(|v| v.0).collect()).collect(), largest.iter().map(|v| v.0).collect()))
+                })
+            })
+            .collect()
+    })
+    .join()
+    .unwrap();
+    let mut ip: Vec<String> = vec![];
+    let mut mp: Vec<String> = vec![];
+    let mut sp_: Vec<String> = vec![];
+    for (sp, out) in steps.iter().zip(results.iter()) {
+        let g_coq = format!("(mkG {} {})", sp.n, coq_list(&sp.es, |(s, d)| format!("({},{})", s, d)));
+        let bad = sp.kind != "direct";
+        if bad {
+            mp.push(coq_string("Err EdgeNotFound"));
+            sp_.push(coq_string("Err EdgeNotFound"));
+            st.count("sequence_step:failing");
+        } else {
+            mp.push(format!("payload_model {}", g_coq));
+            st.count("sequence_step:valid");
+        }
+        match out {
+            Ok(Ok((comps, largest))) => {
+                let mut l = largest.clone();
+                l.sort();
+                ip.push(format!("Ok comps={} largest={}", show_list(&canon(comps), show_comp), show_comp(&l)));
+                if !bad {
+                    sp_.push(format!("payload_spec {} {} {}", g_coq, coq_list(comps, coq_comp), coq_comp(largest)));
+                }
+            }
+            Ok(Err(e)) => {
+                ip.push(if e.starts_with("EdgeNotFound") { "Err EdgeNotFound".to_string() } else { format!("Err {}", e.replace('\n', " ")) });
+                if !bad {
+                    sp_.push(coq_string("an Ok result"));
+                }
+            }
+            Err(p) => {
+                ip.push(format!("PANIC {}", p.replace('\n', " ")));
+                if !bad {
+                    sp_.push(coq_string("an Ok result"));
+                }
+            }
+        }
+    }
+    let terms = vec![
+        format!("line_seq \"M\" {} [{}]", id, mp.join("; ")),
+        format!("line_seq \"S\" {} [{}]", id, sp_.join("; ")),
+    ];
+    let line = format!("I {} {}", id, ip.join(" || "));
+    st.count("family:sequence");
+    st.count(&format!("sequence_length:{}", steps.len()));
+    if steps.iter().any(|s| s.kind != "direct") {
+        st.count("sequence_with_failing_step");
+        st.mark_nontrivial(&format!("{:?}", steps.iter().map(|s| (s.n, s.es.clone(), s.kind.clone(), s.bad_at)).collect::<Vec<_>>()));
+    }
+    let desc = json!({"id": id, "family": "sequence", "n": 0, "steps": steps.iter().map(step_json).collect::<Vec<_>>()});
+    st.case(terms, vec![line], desc);
 }
 
 /// "deep" family: graphs whose depth-first search follows one path of thousands of vertices.
@@ -752,6 +883,20 @@ fn main() {
         let v: serde_json::Value = serde_json::from_str(&std::fs::read_to_string(p).unwrap()).unwrap();
         let case = &v["case"];
         let n = case["n"].as_u64().unwrap() as usize;
+        if let Some(steps) = case.get("steps").and_then(|x| x.as_array()) {
+            let steps: Vec<Step> = steps
+                .iter()
+                .map(|x| Step {
+                    n: x["n"].as_u64().unwrap() as usize,
+                    es: serde_json::from_value(x["edges"].clone()).unwrap(),
+                    kind: x["kind"].as_str().unwrap().to_string(),
+                    bad_at: x["bad_at"].as_u64().unwrap_or(0) as usize,
+                })
+                .collect();
+            emit_seq(&mut st, steps, &tmp);
+            st.finish();
+            return;
+        }
         if let Some(shape) = case["shape"].as_str() {
             emit_deep(&mut st, shape, n, case["k"].as_u64().unwrap_or(0) as usize);
             st.finish();
@@ -760,7 +905,8 @@ fn main() {
         let es: Vec<E> = serde_json::from_value(case["edges"].clone()).unwrap();
         let via = case["via_files"].as_bool().unwrap_or(false);
         let dists: Option<Vec<f64>> = case.get("dists").and_then(|d| serde_json::from_value(d.clone()).ok());
-        emit_case(&mut st, n, es, "replay", via, &tmp, dists);
+        let hint: Option<Option<usize>> = case.get("n_edges_hint").map(|h| h.as_u64().map(|x| x as usize));
+        emit_case(&mut st, n, es, "replay", via, &tmp, dists, hint);
         st.finish();
         return;
     }
@@ -831,17 +977,57 @@ fn main() {
     add_case(&mut st, 2, vec![(0, 4), (4, 0), (0, 1)], "dangling_endpoint_from_files", true, &tmp);
     add_case(&mut st, 3, vec![(0, 1), (1, 0), (1, 7)], "dangling_endpoint_from_files", true, &tmp);
     add_case(&mut st, 3, vec![(0, 1), (5, 0), (2, 2)], "dangling_endpoint_from_files", true, &tmp);
+    // ---- sequence: 2-4 analyses in a row on one thread, a failing one first or in the middle; every
+    // result is judged for its own graph (no state may survive a call, successful or not) ----
+    {
+        let two_pairs: Vec<E> = vec![(0, 1), (1, 0), (2, 3), (3, 2)];
+        let valid = |n: usize, es: Vec<E>| Step { n, es, kind: "direct".to_string(), bad_at: 0 };
+        // the witness of seeded C18-15: a failed analysis, then {0,1} {2,3}
+        add_seq(&mut st, vec![Step { n: 4, es: vec![(0, 1), (1, 2), (2, 3)], kind: "file_ids_from_1".to_string(), bad_at: 0 }, valid(4, two_pairs.clone()), valid(4, two_pairs.clone())]);
+        add_seq(&mut st, vec![Step { n: 4, es: vec![(0, 1), (1, 2), (2, 3)], kind: "bad_adj".to_string(), bad_at: 2 }, valid(4, two_pairs.clone())]);
+        add_seq(&mut st, vec![Step { n: 4, es: vec![(0, 1), (1, 2), (2, 3), (3, 0)], kind: "bad_adj".to_string(), bad_at: 3 }, valid(4, two_pairs.clone()), valid(6, vec![(0, 1), (1, 2), (2, 0), (3, 4)])]);
+        add_seq(&mut st, vec![valid(4, two_pairs.clone()), valid(3, vec![(0, 1), (1, 2)]), valid(4, two_pairs.clone())]);
+        let mut r0 = Rng::new(a.seed ^ 0x5e9_0e7ce);
+        let n_seq = if thorough { 300 } else { 30 };
+        for _ in 0..n_seq {
+            let mut r = r0.fork();
+            let len = r.range(2, 4) as usize;
+            let fail_pos = if r.chance(4, 5) { r.below(len as u64 - 1) as usize } else { usize::MAX };
+            let mut steps: Vec<Step> = vec![];
+            for j in 0..len {
+                let (n, es, _f) = random_graph(&mut r, 10);
+                let n = n.min(10).max(1);
+                let es: Vec<E> = es.into_iter().filter(|(x, y)| *x < n && *y < n).collect();
+                if j == fail_pos {
+                    if r.chance(1, 4) && !es.is_empty() {
+                        steps.push(Step { n, es, kind: "file_ids_from_1".to_string(), bad_at: 0 });
+                    } else {
+                        steps.push(Step { n, es, kind: "bad_adj".to_string(), bad_at: r.below(n as u64) as usize });
+                    }
+                } else {
+                    steps.push(valid(n, es));
+                }
+            }
+            add_seq(&mut st, steps);
+        }
+    }
     // ---- loaded: edge lists with a distance column (0.0, 1e-9 and positive lengths) written to CSV and
     // read back through Graph::from_files; connectivity must not depend on the length of an edge ----
     {
         // the witness of seeded C18-12: ring 0->1->2->3->4->0 whose connector 2->3 has length 0
         let ring: Vec<E> = vec![(0, 1), (1, 2), (2, 3), (3, 4), (4, 0), (4, 5), (5, 5)];
-        add_loaded(&mut st, 6, ring.clone(), vec![1.0, 1.0, 0.0, 1.0, 1.0, 1.0, 1.0], "loaded");
-        add_loaded(&mut st, 6, ring.clone(), vec![1.0, 1.0, 1e-9, 1.0, 1.0, 1.0, 1.0], "loaded");
-        add_loaded(&mut st, 6, ring.clone(), vec![0.0; 7], "loaded");
-        add_loaded(&mut st, 6, ring.clone(), vec![0.01, 2.5, 1.0, 1e-9, 1000.0, 0.5, 0.0], "loaded");
-        add_loaded(&mut st, 3, vec![(0, 1), (1, 0), (1, 2)], vec![0.0, 1.0, 0.0], "loaded");
-        add_loaded(&mut st, 3, vec![(0, 1), (1, 0), (1, 2)], vec![1.0, 0.0, 1.0], "loaded");
+        add_loaded(&mut st, 6, ring.clone(), vec![1.0, 1.0, 0.0, 1.0, 1.0, 1.0, 1.0], "loaded", None);
+        add_loaded(&mut st, 6, ring.clone(), vec![1.0, 1.0, 1e-9, 1.0, 1.0, 1.0, 1.0], "loaded", None);
+        add_loaded(&mut st, 6, ring.clone(), vec![0.0; 7], "loaded", None);
+        add_loaded(&mut st, 6, ring.clone(), vec![0.01, 2.5, 1.0, 1e-9, 1000.0, 0.5, 0.0], "loaded", None);
+        add_loaded(&mut st, 3, vec![(0, 1), (1, 0), (1, 2)], vec![0.0, 1.0, 0.0], "loaded", None);
+        add_loaded(&mut st, 3, vec![(0, 1), (1, 0), (1, 2)], vec![1.0, 0.0, 1.0], "loaded", None);
+        // the witness of seeded C18-14: the row that closes the ring is the last one; n_edges hints that
+        // are exact, generous, stale (too small) or absent must all load every row of the file
+        let ring5: Vec<E> = vec![(0, 1), (1, 2), (2, 3), (3, 4), (4, 0)];
+        for h in [Some(Some(5)), Some(Some(50)), Some(Some(4)), Some(Some(2)), Some(Some(0)), Some(None)] {
+            add_loaded(&mut st, 5, ring5.clone(), vec![1.0; 5], "loaded", h);
+        }
         let lengths = [0.0, 0.0, 1e-9, 0.01, 1.0, 123.456];
         let mut r0 = Rng::new(a.seed ^ 0x10ad_ed);
         let n_loaded = if thorough { 400 } else { 40 };
@@ -851,7 +1037,17 @@ fn main() {
             let n = n.min(14);
             let es: Vec<E> = es.into_iter().filter(|(a, b)| *a < n && *b < n).collect();
             let dists: Vec<f64> = es.iter().map(|_| *r.pick(&lengths)).collect();
-            add_loaded(&mut st, n, es, dists, "loaded");
+            let m = es.len();
+            let hint = match r.below(7) {
+                0 => None,                       // exact (the harness default)
+                1 => Some(Some(m)),
+                2 => Some(Some(m + 1 + r.below(20) as usize)),
+                3 => Some(Some(m.saturating_sub(1))),
+                4 => Some(Some(m / 2)),
+                5 => Some(Some(0)),
+                _ => Some(None),
+            };
+            add_loaded(&mut st, n, es, dists, "loaded", hint);
         }
     }
     // ---- deep: one search path of 4500..20000 (fixed sizes up to 300000) vertices, implementation on
